@@ -1,4 +1,4 @@
-(** * ident/Local.v - the local shortcut (C12; finding F12a, repaired in /repo by 1a6ebc01)
+(** * ident/Local.v - the local shortcut (C12; findings F12a and F12b, repaired in /repo by 1a6ebc01 and 346cb17c)
 
     When the parent (or repository) of a CA lives in the same Krill instance, no CMS is built:
 
@@ -14,10 +14,16 @@
       error is returned and nothing is processed or stored: [local6492].
       ORIGINALLY PINNED TREE: no key of the caller was compared with anything: [local6492_pinned],
       kept with its refutation (F12a) as a regression witness.
-    - [send_rfc8181_and_validate_response] (manager.rs:2934-2954): if the repository's service URI
-      starts with the instance's service URI, [rfc8181_message] is called for the publisher whose
-      handle equals the CALLER'S CA HANDLE ([ca_handle.convert()]). No key is compared; the reply
-      is not signed (candidate F12b).
+    - [send_rfc8181_and_validate_response] (manager.rs:2934-2969): if the repository's service URI
+      starts with the instance's service URI, the message is turned into a query ([as_query()?]) and
+      [rfc8181_message] is called for the publisher whose handle equals the CALLER'S CA HANDLE
+      ([ca_handle.convert()], 2949); the reply is not signed.
+      REPAIRED TREE (/repo 346cb17c, 2951-2963): before that, the ID certificate registered for that
+      publisher is fetched ([get_publisher_id_cert], unknown publisher = error) and its key
+      identifier compared with [signing_key], the calling CA's own ID key; on a mismatch an error is
+      returned and nothing is processed or stored: [local8181].
+      ORIGINALLY PINNED TREE: no key was compared: [local8181_pinned], kept with its refutation
+      (F12b) as a regression witness.
 
     Definitions only. *)
 From KV Require Import base.Tac ident.Msg ident.Updown.
@@ -50,14 +56,27 @@ Definition local6492 (st : parent) (cl : caller) (r : req) : parent * outcome re
                else (st, Refused)                                 (* "not its registered ID key" *)
   end.
 
-(** Local RFC 8181 exchange: served as the publisher named like the calling CA. *)
-Definition local8181 (rp : repo) (cl : caller) (q : query) : repo * outcome preply :=
+(** The originally pinned local RFC 8181 exchange: served as the publisher named like the calling CA, no key involved. *)
+Definition local8181_pinned (rp : repo) (cl : caller) (q : query) : repo * outcome preply :=
   let h := cl_handle cl in
   match serve8181 rp h q with
   | None => (rp, Refused)
   | Some (rp', RsServed rep) => (rp', Served h (mkMsg 0 0 rep 0 true))
   | Some (rp', RsPanicked) => (rp', Panicked)
   | Some (rp', _) => (rp', Errored h)
+  end.
+
+(** The local RFC 8181 exchange of the repaired tree: the ID key registered for the publisher that
+    carries the caller's handle must be the caller's own ID key. *)
+Definition local8181 (rp : repo) (cl : caller) (q : query) : repo * outcome preply :=
+  match q with
+  | QReply => (rp, Refused)                                         (* as_query()? fails before anything else *)
+  | _ =>
+      match aget (cl_handle cl) (r_pubs rp) with
+      | None => (rp, Refused)                                       (* get_publisher_id_cert(..)?: unknown publisher *)
+      | Some pb => if pb_id pb =? cl_id cl then local8181_pinned rp cl q
+                   else (rp, Refused)                               (* "not its registered ID key" *)
+      end
   end.
 
 (** The contact of the caller names the child this caller is registered as: if the parent knows a
